@@ -1,5 +1,6 @@
 import ScVerif.C17.ErrLemmas
 import ScVerif.C17.CancelLemmas
+import ScVerif.C17.ErrThreadLemmas
 import ScVerif.C17.PropsThreads
 /-!
 # C17 — member errors are opaque; the caller's context is cancelled before / during the call
@@ -81,6 +82,42 @@ def fastPeeking : Consumer (Option Tagged) Single where
 example : ∃ (f : Nat → Nat) (rs : List Tagged),
     fastPeeking.result (rs.map (mapT f)) ≠ (fastPeeking.result rs).mapErr f :=
   ⟨fun _ => 100, [(0, ⟨none, some 1⟩), (1, ⟨some 5, none⟩)], by decide⟩
+
+/-- **C17_errors_opaque_threads.** The same at the level of goroutines: for every relabelling `f` of
+member error values, every equivariant consumer loop (UpTo with any budget, Fast, Race - the three
+instances are stated), all member behaviours (cancellation-aware or not) and EVERY schedule, running
+the relabelled members goes through exactly the relabelled configurations: every goroutine is at the
+same point, the same responses (relabelled) are on the channel in the same order, the members'
+context is cancelled at the same moments, the call has returned in the same cases with the relabelled
+value, and the same number of goroutines is alive. -/
+theorem C17_errors_opaque_threads (f : Nat → Nat) (behs : List Beh) (sched : List Tid) :
+    (∀ (n : Nat) (allowed : Int),
+        let C := upTo n allowed
+        exec C (Config.spawn C (behs.map (Beh.mapErr f))) sched
+          = (exec C (Config.spawn C behs) sched).mapErr f (UpToSt.mapErr f) (Many.mapErr f))
+    ∧ exec fast (Config.spawn fast (behs.map (Beh.mapErr f))) sched
+        = (exec fast (Config.spawn fast behs) sched).mapErr f (Option.map (mapT f)) (Single.mapErr f)
+    ∧ exec race (Config.spawn race (behs.map (Beh.mapErr f))) sched
+        = (exec race (Config.spawn race behs) sched).mapErr f id (Single.mapErr f)
+    ∧ (∀ (C : Consumer σ ρ) (gσ : σ → σ) (gρ : ρ → ρ), Equivariant C f gσ gρ →
+        let c := exec C (Config.spawn C behs) sched
+        let c' := exec C (Config.spawn C (behs.map (Beh.mapErr f))) sched
+        c'.cancelled = c.cancelled ∧ c'.alive = c.alive ∧ c'.hist = c.hist.map (mapT f)
+        ∧ (∀ x b, c.cons = .returned x b → c'.cons = .returned (gρ x) b)) := by
+  have key : ∀ {σ ρ : Type} (C : Consumer σ ρ) (gσ : σ → σ) (gρ : ρ → ρ), Equivariant C f gσ gρ →
+      exec C (Config.spawn C (behs.map (Beh.mapErr f))) sched
+        = (exec C (Config.spawn C behs) sched).mapErr f gσ gρ := by
+    intro σ ρ C gσ gρ h
+    rw [spawn_map C f gσ gρ h, exec_map C f gσ gρ h]
+  refine ⟨fun n allowed => key _ _ _ (upTo_equivariant n allowed f), key _ _ _ (fast_equivariant f),
+    key _ _ _ (race_equivariant f), ?_⟩
+  intro C gσ gρ h c c'
+  have hc : c' = c.mapErr f gσ gρ := key C gσ gρ h
+  refine ⟨by rw [hc]; rfl, by rw [hc]; exact alive_mapErr f gσ gρ c, by rw [hc]; rfl, ?_⟩
+  intro x b hx
+  rw [hc]
+  show (c.cons).mapErr f gσ gρ = _
+  rw [hx]; rfl
 
 /-- **C17_caller_cancel.** The caller's context is cancelled after an arbitrary prefix `sched1` of the
 schedule (empty prefix: before the call has started anything), then the threads go on under an
